@@ -226,7 +226,7 @@ def check_nego(ctx, spec):
         ctx.fail_exc(spec, 'parse-raises', exc)
         return
     for mode in ('cold', 'warm'):
-        fn = layout.get_encoder.__wrapped__ if mode == 'cold' else layout.get_encoder
+        fn = getattr(layout.get_encoder, '__wrapped__', layout.get_encoder) if mode == 'cold' else layout.get_encoder
         try:
             got = fn(*accept)
         except layout.Encoding.Unsupported:
@@ -250,7 +250,7 @@ def check_nego(ctx, spec):
     declared = [as_pair(e) for _, e in _codec.DECODERS]
     dexp = next((i for i, d in enumerate(declared) if ref_match(d, top)), None)
     for mode in ('cold', 'warm'):
-        fn = layout.get_decoder.__wrapped__ if mode == 'cold' else layout.get_decoder
+        fn = getattr(layout.get_decoder, '__wrapped__', layout.get_decoder) if mode == 'cold' else layout.get_decoder
         try:
             got = fn(accept[0])
         except layout.Encoding.Unsupported:
@@ -263,6 +263,74 @@ def check_nego(ctx, spec):
             kind = 'unsupported-vs-found' if (gidx is None) != (dexp is None) else 'wrong-decoder'
             ctx.fail(spec, 'get_decoder', kind, f'content-type={top} expected={dexp} got={gidx}', [mode])
             return
+
+
+# ---- campaign: the whole endpoint path (Request -> Generic.respond) ---------------------------------------------------------
+_CTYPES = ['application/json', 'text/csv', 'application/json; format=pandas-records', 'application/json; format=pandas-split', 'foo/x-bar']
+def _mr(params=(), q=None):
+    return {'type': '*', 'sub': '*', 'params': [list(p) for p in params], 'q': q, 'qpos': 0, 'qname': 'q', 'case': 0, 'ws': ['', ' ', '', ' ']}
+
+
+_WILD_ONLY = [[_mr()], [_mr(q='0.8')], [_mr([('foo', '1')])], [_mr(), _mr([('format', 'csv')], '0.5')], [_mr([('format', 'pandas-split')])]]
+
+
+@st.composite
+def endpoint_spec(draw):
+    """What a gateway hands over: a declared content type plus the Accept header (absent / wildcards only / anything)."""
+    mode = draw(st.sampled_from(['none', 'wild', 'wild', 'any', 'any', 'any']))
+    accept = None if mode == 'none' else draw(st.sampled_from(_WILD_ONLY)) if mode == 'wild' else draw(header_spec(realistic=True))
+    return {'ctype': draw(st.sampled_from(_CTYPES)), 'accept': accept}
+
+
+_OUTCOME = layout.Outcome(dsl.Schema.from_fields(dsl.Field(dsl.Integer(), name='y')), [(1,), (2,)])
+
+
+def check_endpoint(ctx, spec):
+    """The client's preference order must survive layout.Request and decide the encoder in Generic.respond: with an Accept
+    header it is the header's order (nothing put in front of it), without one the request's own content type."""
+    from forml import application
+
+    ctype = layout.Encoding.parse(spec['ctype'])[0]
+    if spec['accept'] is None:
+        prefs = [as_pair(ctype)]
+        accept = None
+    else:
+        prefs = ref_parse(spec['accept'])
+        accept = layout.Encoding.parse(render(spec['accept']))
+    supported = [as_pair(e.encoding) for e in _codec.ENCODERS]
+    expected = next((j for pat in prefs for j, enc in enumerate(supported) if ref_match(pat, enc)), None)
+    if expected is not None:  # first preference that is supported at all, then the first encoder matching it
+        for pat in prefs:
+            hit = next((j for j, enc in enumerate(supported) if ref_match(pat, enc)), None)
+            if hit is not None:
+                expected = hit
+                break
+    only_wild = spec['accept'] is not None and all(k == '*/*' for k, _ in prefs)
+    classes = ['endpoint', 'endpoint:no-accept' if spec['accept'] is None else 'endpoint:wild-only' if only_wild else 'endpoint:accept']
+    classes.append('endpoint:unsupported' if expected is None else 'endpoint:found')
+    ctx.case(spec, nontrivial=spec['accept'] is not None and as_pair(ctype) != (prefs[0] if prefs else None), classes=classes)
+    tags = [classes[1].split(':')[1]]
+    try:
+        request = layout.Request(b'[]', ctype, {}, accept)
+    except Exception as exc:
+        ctx.fail_exc(spec, 'request-raises', exc, tags)
+        return
+    got_prefs = [as_pair(e) for e in request.accept]
+    if got_prefs != prefs:
+        ctx.fail(spec, 'request-accept', 'preference-order-changed', f'ctype={spec["ctype"]} accept={prefs} request.accept={got_prefs}', tags)
+        return
+    app = application.Generic('endpoint-probe')
+    try:
+        payload = app.respond(_OUTCOME, request.accept, None)
+        gidx = next((i for i, e in enumerate(_codec.ENCODERS) if e.encoding == payload.encoding), -1)
+    except layout.Encoding.Unsupported:
+        gidx = None
+    except Exception as exc:
+        ctx.fail_exc(spec, 'respond-raises', exc, tags)
+        return
+    if gidx != expected:
+        kind = 'unsupported-vs-found' if (gidx is None) != (expected is None) else 'wrong-encoder'
+        ctx.fail(spec, 'respond', kind, f'ctype={spec["ctype"]} accept={prefs} expected={expected} got={gidx}', tags)
 
 
 # ---- campaign: codec round trip -------------------------------------------------------------------------------------------
@@ -362,6 +430,7 @@ def campaigns(ctx):
         Campaign('match', match_spec, check_match, 4000, 40000),
         Campaign('nego', header_spec(realistic=True), check_nego, 4000, 40000),
         Campaign('codec', table_spec(), check_codec, 300, 6000),
+        Campaign('endpoint', endpoint_spec(), check_endpoint, 1500, 10000),
     ]
 
 
